@@ -51,7 +51,8 @@ static void do_sleep(int via, uint64_t us) {
       usleep((useconds_t)us);
       break;
     case VIA_NANOSLEEP: {
-      struct timespec ts = {.tv_sec = us / 1000000, .tv_nsec = (us % 1000000) * 1000};
+      /* nanosecond granularity: the request is for at least `us` microseconds */
+      struct timespec ts = {.tv_sec = us / 1000000, .tv_nsec = (us % 1000000) * 1000 + (long)(us * 7 % 1000)};
       struct timespec rem = {77, 77};
       nanosleep(&ts, (us & 1) ? &rem : NULL); /* with and without the "remaining" argument */
       break;
@@ -164,20 +165,23 @@ static void* fib(void* p) {
  * A handful of detached fibers ask for (seconds, microseconds) combinations around 2^32 microseconds and
  * multiples of it; the main fiber sleeps a second or two and then none of them may have returned. ---- */
 static volatile int ls_returned[6];
+static uint64_t ls_returned_ns[6];
 static struct {
-  uint32_t sec, usec;
+  uint32_t sec, usec, nsx; /* nsx: nanoseconds on top (nanosleep only) */
   int via;
 } ls_spec[6];
+static NS void g_ls_returned(int i) { ls_returned_ns[i] = sim_now(); }
 static void* ls_fiber(void* p) {
   const int i = (int)(intptr_t)p;
   switch (ls_spec[i].via) {
     case 0: fiber_sleep(ls_spec[i].sec, ls_spec[i].usec); break;
     case 1: sleep(ls_spec[i].sec); break;
     default: {
-      struct timespec ts = {.tv_sec = ls_spec[i].sec, .tv_nsec = (long)ls_spec[i].usec * 1000};
+      struct timespec ts = {.tv_sec = ls_spec[i].sec, .tv_nsec = (long)ls_spec[i].usec * 1000 + (long)ls_spec[i].nsx};
       nanosleep(&ts, NULL);
     }
   }
+  g_ls_returned(i);
   ls_returned[i] = 1;
   return NULL;
 }
@@ -191,7 +195,14 @@ static void run_long_sleepers(sim_cfg_t c) {
     ls_spec[i].usec = wl_pct(50) ? 0 : (uint32_t)wl_int(0, 999999);
     if (wl_pct(25)) ls_spec[i].usec = 967296 + (uint32_t)wl_int(0, 8) * 4000; /* 4294 s + 967296 us = 2^32 us */
     ls_spec[i].via = wl_pick(3);
-    dk += snprintf(d + dk, sizeof d - dk, "%us+%uus/%d ", ls_spec[i].sec, ls_spec[i].usec, ls_spec[i].via);
+    ls_spec[i].nsx = 0;
+    if (wl_pct(30)) { /* a nanosleep request within a microsecond of a whole number of seconds */
+      ls_spec[i].sec = (uint32_t)wl_int(0, 2);
+      ls_spec[i].usec = 999999;
+      ls_spec[i].nsx = (uint32_t)wl_int(0, 999);
+      ls_spec[i].via = 2;
+    }
+    dk += snprintf(d + dk, sizeof d - dk, "%us+%uus+%uns/%d ", ls_spec[i].sec, ls_spec[i].usec, ls_spec[i].nsx, ls_spec[i].via);
   }
   const int wait_ms = wl_int(1, 6) * 100;
   sim_scenario("long-sleepers");
@@ -201,13 +212,13 @@ static void run_long_sleepers(sim_cfg_t c) {
   sim_set_quiet_ns((uint64_t)(wait_ms + 2) * 5000000ull * 3 + 40 * 5000000ull);
   sim_fiber_mode();
   fiber_manager_init(c.threads);
+  const uint64_t t0 = sim_now(); /* (before any of them exists: "returned - t0" is at least the time slept) */
   for (int i = 0; i < n; i++) fiber_detach(fiber_create(STK, ls_fiber, (void*)(intptr_t)i));
-  const uint64_t t0 = sim_now();
   fiber_sleep(0, (uint32_t)wait_ms * 1000);
   for (int i = 0; i < n; i++)
-    if (ls_returned[i])
-      sim_violation("C09-early-wake", "a fiber asked to sleep %u s + %u us and had returned when looked at %lu ms later", ls_spec[i].sec, ls_spec[i].usec,
-                    (unsigned long)((sim_now() - t0) / 1000000));
+    if (ls_returned[i] && ls_returned_ns[i] - t0 < (uint64_t)ls_spec[i].sec * 1000000000ull + (uint64_t)ls_spec[i].usec * 1000)
+      sim_violation("C09-early-wake", "a fiber asked to sleep %u s + %u us + %u ns and returned %lu ms after it was created", ls_spec[i].sec, ls_spec[i].usec, ls_spec[i].nsx,
+                    (unsigned long)((ls_returned_ns[i] - t0) / 1000000));
   sim_finish_ok(); /* the sleepers stay asleep: nothing to join */
 }
 void h_run(void) {
